@@ -65,6 +65,12 @@ def main(pid, tier, budget):
 			if (fname, i % len(kws)) not in [(f, j) for f, j, _ in reps]:
 				reps.append((fname, i % len(kws), kws[i]))
 	reps = [(f, kw) for f, _, kw in reps]
+	if not files:
+		# only native anchors: nothing can be line-traced
+		report = [dict(where=a['where'], name=a.get('name'), status='native (not line-traceable)') for a in anchors]
+		sys.stdout.write('ANCHORS ' + json.dumps(dict(anchor_ranges_total=0, anchor_ranges_hit=0, anchor_ranges=report, traced_tasks=[], budget_s=budget,
+		                                             note='all anchors of this property are in Cython sources')) + '\n')
+		return
 	cov = coverage.Coverage(include=files, data_file=None, concurrency=['thread'])
 	deadline = time.time() + budget
 
